@@ -2,7 +2,7 @@
 import vlib, proglib
 from proglib import DT, DT_BITS
 
-PROP_FILES = ["Properties_C15.v"]
+PROP_FILES = ["Properties_C15.v", "Properties_gen.v"]
 
 
 def gen_case(rng, tier):
